@@ -330,7 +330,15 @@ def handleRm (eng : Engine) (lhm rhm : Int) (rest : Cur) : String :=
             | some u => if u = inp then "1" else "0"
             | none => "P"
           let dev := "".intercalate ((findWords inp).filterMap (devClass eng inp lhm rhm liang))
-          s!"{v} | {";".intercalate runs} | {shown} | ub={ub} dev={dev}"
+          -- `positions_exact_list`, evaluated on the REAL output: break positions of its inserted
+          -- discretionaries = the allowed positions (`expectedM`) that no discretionary covers
+          let marks := (align inp out).getD (markDiscs out)
+          let tr := discPositions marks out 0
+          let ex := expectedM lhm rhm liang inp
+          let pe := tr.map (·.1) == ex.filter (fun p => !coveredBy tr p)
+          -- and `expectedM` agrees with the positions computed from `findWords` (what `chk` uses)
+          let ee := ex == expectedPositions inp fw (fw.map (fun w => wordPositions lhm rhm w.letters.length (liang w.letters)))
+          s!"{v} | {";".intercalate runs} | {shown} | ub={ub} dev={dev} pe={b2s pe} ee={b2s ee}"
         | _ => "bad-request raws"
       | _ => "bad-request out"
 
